@@ -277,6 +277,9 @@ func TestC03(t *testing.T) {
 	signedLifecycle(t, rep, env)
 	encryptedLifecycle(t, rep, env)
 	runRecvSched(t, rep, env)
+	// near-wrap tiers (shared with the C15 check, see wrap_util_test.go).
+	runEpochTier(t, rep, env)
+	runDuplexTier(t, rep, env)
 	if err := rep.Finish(env); err != nil {
 		t.Fatal(err)
 	}
